@@ -784,9 +784,15 @@ class Interp(ExprEnc):
         fr.caller = caller
         dummies = list(callee.arguments)
         amap = {}
+        dn_all = [d.name.lower() for d in dummies]
+        if len(set(dn_all)) != len(dn_all):
+            dup = sorted(n for n in set(dn_all) if dn_all.count(n) > 1)
+            raise NotEncoded(f'duplicate dummy argument {dup} of {callee.name}')
         for d, a in zip(dummies, arguments):
             amap[d.name.lower()] = a
         for k, a in kwarguments or ():
+            if str(k).lower() in amap:
+                raise NotEncoded(f'duplicate actual for dummy {str(k).lower()} of {callee.name}')
             amap[str(k).lower()] = a
         if len(arguments) > len(dummies):
             raise NotEncoded('more actual than dummy arguments')
@@ -917,7 +923,11 @@ class Interp(ExprEnc):
                     ext = [hi - lo + 1 for lo, hi in obj.bounds]
                 if len(ext) != len(bounds):
                     raise NotEncoded(f'rank mismatch for assumed-shape {dn}')
-                bounds = [(b[0], b[0] + n - 1) for b, n in zip(bounds, ext)]
+                if whole and (getattr(dummy.type, 'allocatable', None) or getattr(dummy.type, 'pointer', None)):
+                    # deferred-shape dummy (ALLOCATABLE / POINTER): the bounds of the actual are handed over
+                    bounds = list(obj.bounds)
+                else:
+                    bounds = [(b[0], b[0] + n - 1) for b, n in zip(bounds, ext)]
             else:
                 # assumed size: last extent from what is left
                 known = 1
